@@ -262,6 +262,12 @@ class WebSocket:
             Pre-initialized stream socket.
         """
         self.sock_opt.timeout = options.get("timeout", self.sock_opt.timeout)
+        # nothing of a frame or message cut short on an earlier connection
+        # of this object belongs to the new one
+        self.frame_buffer.clear()
+        self.frame_buffer.recv_buffer = []
+        self.cont_frame.cont_data = None
+        self.cont_frame.recving_frames = None
         self.sock, addrs = connect(
             url, self.sock_opt, proxy_info(**options), options.pop("socket", None)
         )
